@@ -50,8 +50,9 @@ MCMapsSmall == [m \in {"inj", "merge", "swap", "chain2", "ghost", "empty", "kinv
 MCExtraSyms == {Sym("c1", "re"), Sym("nope", "none")}     \* right name wrong assumptions; unknown
 MCExtraNames == {"nope"}
 MCValues == {8, 9}
+MCValues1 == {8}
 DevNone == {}
-DevPinned == {"CollectExprKinOnly"}
+DevPinned == {"CollectExprKinOnly"}   \* ampform before /repo commit 31be39e
 DevSeq == {"SequentialSubs"}
 DevAssume == {"DropAssumptions"}
 DevComps == {"ComponentsNotRenamed"}
